@@ -1,0 +1,10 @@
+//go:build verif
+// +build verif
+
+package stub
+
+// HolderBounds returns the bounds of the built-in reserve and the current bump pointer
+// (simulator oracle only).
+func HolderBounds() (min, max, off uintptr) {
+	return placeHolderIns.min, placeHolderIns.max, placeHolderIns.off
+}
